@@ -239,8 +239,11 @@ def run_playback(profile, h_file_rel, module, tests, per_test_timeout=60):
             out = p.stdout
             if "test result: FAILED" in out:
                 m = re.search(r"panicked at ([^\n]*)\n([^\n]*)", out)
-                outcomes.append({"test": t["name"], "outcome": "panic", "where": m.group(1) if m else "",
-                                 "message": m.group(2) if m else ""})
+                msg = m.group(2) if m else ""
+                # `cargo kani playback` does not apply #[kani::stub]: a harness whose inputs come from scripted stubs can
+                # desynchronise natively; a violated kani::assume is NOT a reproduction of the property failure
+                kind = "assume-violated-natively" if "kani::assume" in msg else "panic"
+                outcomes.append({"test": t["name"], "outcome": kind, "where": m.group(1) if m else "", "message": msg})
             elif "test result: ok. 1 passed" in out:
                 outcomes.append({"test": t["name"], "outcome": "no-panic"})
             else:
